@@ -1,7 +1,7 @@
 (* C06 - Response manipulation is exact: hidden fields never leak, shape as configured.
    Only theorem statements, each closed by an exact lemma, and Print Assumptions. *)
 Require Import Verif.Common.Base Verif.Common.Json.
-Require Import Verif.Model.C06 Verif.Spec.C06 Verif.Proof.C06 Verif.Proof.C06_d Verif.Proof.C06_e Verif.Proof.C06_f Verif.Proof.C06_g Verif.Proof.C06_h Verif.Proof.C06_i.
+Require Import Verif.Model.C06 Verif.Spec.C06 Verif.Proof.C06 Verif.Proof.C06_d Verif.Proof.C06_e Verif.Proof.C06_f Verif.Proof.C06_g Verif.Proof.C06_h Verif.Proof.C06_i Verif.Proof.C06_j.
 Require Import Coq.Sorting.Permutation.
 
 (* ALLOW LIST = exactly the projection onto the listed dot-paths.  For every prefix-free
@@ -249,6 +249,64 @@ Theorem C06_names_distinct_b_reflects : forall mp, names_distinct_b mp = true <-
 Proof. intros mp. split; [apply names_distinct_b_sound|apply names_distinct_b_complete]. Qed.
 Print Assumptions C06_names_distinct_b_reflects.
 
+(* ====== END TO END: several backends, each decoded and formatted with ITS OWN configuration,
+   united by the parallel merge (Verif.Model.C01 at json values) in arrival order, rendered ====== *)
+
+(* what the client document holds under a top-level key: the member of that name of the last
+   answer (in arrival order) whose formatted output has it - for every number of backends and
+   every arrival order (the list IS the arrival order) *)
+Theorem C06_end_to_end_exact : forall arrived doc,
+  (forall b, In b arrived -> wfj (b_payload b) = true) ->
+  client_doc arrived = Some doc -> forall k, lookup k doc = last_with k (outs arrived).
+Proof. exact e2e_exact. Qed.
+Print Assumptions C06_end_to_end_exact.
+
+(* NO LEAK AT THE CLIENT: every value reachable in the client document at k::p is, for some
+   backend that answered, the value at k::p of format cfg_i (decoded payload_i) - so, by
+   C06_allow_exact / C06_deny_exact / C06_values_untouched applied to that backend, inside
+   its allow list / outside its deny list and unaltered; with p = [] : every top-level key of
+   the client document is a top-level key of some backend's formatted output (group names and
+   mapping destinations included) *)
+Theorem C06_no_leak_end_to_end : forall arrived doc,
+  (forall b, In b arrived -> wfj (b_payload b) = true) ->
+  client_doc arrived = Some doc ->
+  forall k p v, get_path (JObj doc) (k :: p) = Some v ->
+  exists b d m, In b arrived /\
+    decode (b_coll b) (b_payload b) = Some d /\ format (b_cfg b) d = Ok m /\
+    get_path (JObj m) (k :: p) = Some v.
+Proof. exact no_leak_end_to_end. Qed.
+Print Assumptions C06_no_leak_end_to_end.
+
+(* the client document does not depend on the arrival order when the formatted outputs have
+   disjoint top-level keys *)
+Theorem C06_end_to_end_order_independent : forall arrived arrived' doc,
+  Permutation arrived arrived' ->
+  (forall b, In b arrived -> wfj (b_payload b) = true) ->
+  disjoint_keys (outs arrived) ->
+  client_doc arrived = Some doc ->
+  exists doc', client_doc arrived' = Some doc' /\ forall k, lookup k doc = lookup k doc'.
+Proof. exact e2e_order_independent. Qed.
+Print Assumptions C06_end_to_end_order_independent.
+
+(* the boolean no-leak form used on observed client bodies: sound, and true of the model *)
+Theorem C06_end_to_end_oracle_sound : forall os doc, noleak_e2e_b os doc = true ->
+  forall k x, In (k, x) doc -> exists m y, In m os /\ lookup k m = Some y /\ json_eqb x y = true.
+Proof. exact noleak_e2e_b_sound. Qed.
+Print Assumptions C06_end_to_end_oracle_sound.
+
+Theorem C06_end_to_end_model_meets_oracle : forall arrived doc,
+  (forall b, In b arrived -> wfj (b_payload b) = true) ->
+  client_doc arrived = Some doc ->
+  noleak_e2e_b (outs arrived) doc = true /\ all_delivered_b (outs arrived) doc = true.
+Proof. exact e2e_model_meets_oracle. Qed.
+Print Assumptions C06_end_to_end_model_meets_oracle.
+
+(* the whole formatted output of a backend is again a well-formed document *)
+Theorem C06_format_preserves_wf : forall c d m,
+  wfj (JObj d) = true -> format c d = Ok m -> wfj (JObj m) = true.
+Proof. exact format_wf. Qed.
+Print Assumptions C06_format_preserves_wf.
+
 (* non-vacuity *)
 Example C06_ex_prefix_free : prefix_free_b (map split_dot ["a.b"; "a.d"; "c"; "c"]) = true.
 Proof. vm_compute. reflexivity. Qed.
@@ -280,4 +338,23 @@ Proof. vm_compute. reflexivity. Qed.
 Example C06_ex_agree_permuted :
   json_eqb (JObj [("a", JObj [("x", JNum "1"); ("y", JNull)]); ("b", JNum "2")])
            (JObj [("b", JNum "2"); ("a", JObj [("y", JNull); ("x", JNum "1")])]) = true.
+Proof. vm_compute. reflexivity. Qed.
+Example C06_ex_end_to_end :
+  client_doc
+    [ {| b_cfg := {| target := ""; allow := ["id"; "name"]; deny := []; mapping := []; group := "user" |};
+         b_coll := false;
+         b_payload := JObj [("id", JNum "7"); ("name", JStr "n"); ("secret", JStr "s")] |};
+      {| b_cfg := {| target := ""; allow := []; deny := ["collection"]; mapping := []; group := "" |};
+         b_coll := false; b_payload := JStr "not an object" |};
+      {| b_cfg := {| target := ""; allow := []; deny := []; mapping := [("collection", "orders")]; group := "" |};
+         b_coll := true; b_payload := JArr [JNum "1"] |} ]
+  = Some [("orders", JArr [JNum "1"]); ("user", JObj [("id", JNum "7"); ("name", JStr "n")])].
+Proof. vm_compute. reflexivity. Qed.
+Example C06_ex_end_to_end_overlap_last_wins :
+  option_map (lookup "a")
+    (client_doc [ {| b_cfg := {| target := ""; allow := []; deny := []; mapping := []; group := "" |};
+                     b_coll := false; b_payload := JObj [("a", JNum "1")] |};
+                  {| b_cfg := {| target := ""; allow := []; deny := []; mapping := []; group := "" |};
+                     b_coll := false; b_payload := JObj [("a", JNum "2")] |} ])
+  = Some (Some (JNum "2")).
 Proof. vm_compute. reflexivity. Qed.
